@@ -38,6 +38,9 @@ def oracle(c, d, kind, im):
     if txt != '' and not txt.endswith('\n'):
         return 'list does not end with a line break'
     names = txt.split('\n')[:-1] if txt else []
+    # (an environment name that holds a paragraph break -- malformed input --
+    # spreads over several lines of the list; empty lines are not names)
+    names = [n for n in names if n]
     if len(set(names)) != len(names):
         return 'a name is listed twice: %r' % names
     if d is not None and kind == 'doc':
@@ -53,6 +56,21 @@ def oracle(c, d, kind, im):
             if n in declared:
                 return 'declared name %r is listed' % n
     return None
+
+
+def repl_stream(res):
+    """a replacement list never rewrites the list of names"""
+    from yalafi import tex2txt
+    tex = 'A \\iid B \\foo C \\begin{document}D\\end{document} \\xq\n'
+    for repl in (['iid & independent'], ['foo &'], ['document & text', 'xq & y'], None):
+        c = parsecase.T2T(tex, lang='en', pack='*', unkn=True, repl=repl, files={})
+        im = parsecase.run_t2t(c)
+        res.count('unkn+repl', c.key())
+        want = '\\iid\n\\foo\ndocument\n\\xq\n'
+        if im[0] != 'OK' or im[1][1] != want:
+            res.failures.append(('c19-repl:%r' % (repl,), c.json(),
+                                 'list with replacement file %r: %r, expected %r'
+                                 % (repl, im[1][1] if im[0] == 'OK' else im[:2], want)))
 
 
 def shell_stream(rng, res, n):
@@ -96,6 +114,7 @@ def run(tier, seed, build, res):
     for i in range(0, len(cases), 2000):
         universe.run(cases[i:i + 2000], res, 'unknowns', project, oracle,
                      sample_rule=lambda c, im: bool(im[1][1].strip()))
+    repl_stream(res)
     shell_stream(rng, res, 3)
 
 
